@@ -16,7 +16,7 @@ ASSUMPTIONS = ['the set of construct openers is taken from the documentation of 
 CHUNK = 6
 E = '\x1b'
 
-OPENERS = ('commit ', 'diff ', '--- ', '+++ ', '@@', 'Submodule ', 'Binary files ', 'Only in ', 'old mode ', 'new mode ', '{',
+OPENERS = ('commit ', 'diff ', '--- ', '+++ ', '@@', 'Submodule ', 'Binary files ', 'Only in ', 'old mode ', 'new mode ', '{"type":"', '{"data":',
            'rename from ', 'rename to ', 'copy from ', 'copy to ', 'deleted file mode ', 'new file mode ', '<<<<<<< ',
            '=======', '>>>>>>> ', '||||||| ', '\\ ')
 # the shape of a `git blame` line as documented: hash [file] (author date time zone line) code
@@ -55,6 +55,8 @@ PROSE = ['The quick brown fox', 'warning: unused variable `x`', '  --> src/main.
          'tab\tseparated\tvalues', '   leading and trailing   ', '日本語のテキスト', 'emoji 😀 text', 'naïve café', '|/ graph', '* | 1234567 msg',
          '- dash start', '+ plus start', '-not a diff', '+not a diff', ' space start', '#!/bin/sh', '--', '++', '---', '+++', '@ at',
          '=====', '<<<<<<<', '>>>>>>>', 'commitment', 'different', 'Binaryfiles', '}{',
+         # JSON of other programs (rg --json records start with {"type":" or {"data":)
+         '{"level":"info","type":"end","msg":"job done"}', '{"a":1}', '{ not json', '{"msg":"x","type":"summary"}', '{"level":"warn","type":"begin"}', '{}',
          '\x1b[35msrc/x.rs\x1b[m\x1b[36m:\x1b[m\x1b[32m12\x1b[m\x1b[36m:\x1b[m coloured like a grep hit, but the caller is not grep',
          '\x1b[35mMakefile\x1b[m\x1b[36m-\x1b[mcontext \x1b[1;31mmatch\x1b[m text', '\x1b[35mnotes\x1b[m\x1b[36m=\x1b[m\x1b[32m3\x1b[m\x1b[36m=\x1b[mheader',
          '1234567 fix the thing', 'abcdef0 (HEAD -> main, origin/main) Merge branch', 'deadbeef HEAD@{0}: commit: message', 'cafe babe and other hex words',
@@ -182,7 +184,7 @@ def run_item(item):
                 elif r < 0.09:
                     b = b[:len(b) // 2] + rng.choice([b'\xff', b'\xc3', b'\xe2\x82']) + b[len(b) // 2:]
                     c = 'invalid-utf8'
-                elif r < 0.13:
+                elif r < 0.13 and not b.startswith(b'{'):     # (lines starting with '{' are exempt from truncation: rg --json)
                     b = b + b' ' + ('long' * 80).encode()
                     c = 'long'
                 if is_opener(term.strip_escapes(b.decode('utf-8', 'replace'))):
